@@ -321,19 +321,24 @@ def fails(case):
 
 
 def report(ctx, case, reported):
-    small = case
+    base = dict(case, mode="components" if case["mode"] == "real" else case["mode"])
     try:
-        if fails(case):
-            small = shrink(dict(case, mode="components" if case["mode"] == "real" else case["mode"]), fails)
-    except Exception:
-        pass
-    impl = run_impl(small)
-    which = py_diff(small, impl)
-    f = {"tables": which, "multigraph": bool(small.get("multigraph")), "backend": small["backend"]}
-    key = json.dumps(f, sort_keys=True)
-    if key in reported:
+        which0 = py_diff(base, run_impl(dict(base)))
+    except Exception as e:                      # the implementation raises on this input
+        which0 = ["raises:" + type(e).__name__]
+    key = json.dumps([which0, case["backend"]])
+    if key in reported or len(reported) >= 4:
         return
     reported.add(key)
+    small = base
+    try:
+        if which0 and not which0[0].startswith("raises"):
+            small = shrink(base, fails)
+    except Exception:
+        pass
+    impl = run_impl(dict(small))
+    which = py_diff(small, impl)
+    f = {"tables": which, "multigraph": bool(small.get("multigraph")), "backend": small["backend"]}
     nodes, edges, clusters = canon(small, impl)
     sn, se, sc = py_spec(small)
     ctx.violation(f"compute_graph_metrics differs from the graph-theoretic definitions in {which or 'model comparison'} ({small['backend']})",
